@@ -632,7 +632,6 @@ func relName(r an.Rel) string {
 	return "?"
 }
 
-
 // mountedLinkForwarding: the mounted-link wrapper (the only link.MountedLink implementation; constraints are evaluated
 // against it) forwards every accessor to the link method of the same meaning.
 func mountedLinkForwarding(c *an.Check) {
